@@ -236,7 +236,7 @@ def _task(args):
             r = space.fn(part, space.nparts)
             return ('bulk', si, dict(evaluations=r.evaluations, nontrivial=r.nontrivial,
                                      states=r.states, n_states=r.n_states, outcomes=r.outcomes,
-                                     fails=[(d, p, _short(e), _short(o)) for d, p, e, o in r.fails[:MAX_FAILS_PER_TASK]],
+                                     fails=[(d, p, _short(e), _short(o)) for d, p, e, o in r.fails[:(400 if getattr(space, 'report_all', False) else MAX_FAILS_PER_TASK)]],
                                      nfail=len(r.fails), sample=r.sample, outside=r.outside, n_outcomes=r.n_outcomes))
     except HarnessError:
         raise
@@ -439,7 +439,9 @@ def ListSpace(name, gen, check, nparts=NPROC, rule=''):
             r.evaluations += 1
             r.states.add(digest(out[3] if len(out) > 3 else repr(desc)))
             r.outcomes.add(digest(outcome))
-            if nontrivial:
+            if len(out) > 4 and out[4]:
+                r.outside += 1          # generated but outside the claimed envelope (e.g. the oracle itself declines the case)
+            elif nontrivial:
                 r.nontrivial += 1
             if fails:
                 f = fails[0]
